@@ -38,13 +38,13 @@ def readFrom (ops : NumOps F) (env : Gen.K19b.sampleGridWT_Env F S) (pts : List 
     | some fx, some fy =>
       let px := ops.toInt fx
       let py := ops.toInt fy
-      if px < 0 ∨ py < 0 ∨ px ≥ env.image_GetWidth ∨ py ≥ env.image_GetHeight then none
-      else readFrom ops env pts y m (k + 1) (if env.image_Get px py then env.bits_Set bits (k : Int) y else bits)
+      if px < 0 ∨ py < 0 ∨ px ≥ env.BitMatrix_GetWidth ∨ py ≥ env.BitMatrix_GetHeight then none
+      else readFrom ops env pts y m (k + 1) (if env.BitMatrix_Get px py then env.BitMatrix_Set bits (k : Int) y else bits)
     | _, _ => none
 
 /-- one row: the points the next row starts from, and the matrix (`none` = NotFound) -/
 def rowSpec (ops : NumOps F) (env : Gen.K19b.sampleGridWT_Env F S) (n : Nat) (y : Int) (bits : S) : List F × Option S :=
-  let r := env.GridSampler_checkAndNudgePoints (env.transform_TransformPoints (centres ops n y))
+  let r := env.GridSampler_checkAndNudgePoints (env.PerspectiveTransform_TransformPoints (centres ops n y))
   (r.2, if r.1 then none else readFrom ops env r.2 y n 0 bits)
 
 /-- rows `y, y+1, …` (`m` rows left) -/
@@ -155,12 +155,12 @@ theorem read_loop (ops : NumOps F) (env : Gen.K19b.sampleGridWT_Env F S) (pts : 
           let px : Int := ops.toInt t2
           tryC (idxA pts (x + 1)) fun t3 =>
           let py : Int := ops.toInt t3
-          if ((((decide (px < 0)) || (decide (py < 0))) || (decide (px >= env.image_GetWidth))) || (decide (py >= env.image_GetHeight))) then
+          if ((((decide (px < 0)) || (decide (py < 0))) || (decide (px >= env.BitMatrix_GetWidth))) || (decide (py >= env.BitMatrix_GetHeight))) then
             .ret none
           else
           let bits :=
-            if (env.image_Get px py) then
-              let bits := env.bits_Set bits (Int.tdiv x 2) y
+            if (env.BitMatrix_Get px py) then
+              let bits := env.BitMatrix_Set bits (Int.tdiv x 2) y
               bits
             else
               bits
@@ -183,14 +183,14 @@ theorem read_loop (ops : NumOps F) (env : Gen.K19b.sampleGridWT_Env F S) (pts : 
       rw [this]; congr 1; omega
     rw [idxA_nat pts (2 * k) h0, show ((2 * k : Nat) : Int) + 1 = ((2 * k + 1 : Nat) : Int) by omega, idxA_nat pts (2 * k + 1) h1, hd]
     simp only [tryC_ok, readFrom, List.getElem?_eq_getElem h0, List.getElem?_eq_getElem h1]
-    by_cases hc : ops.toInt pts[2 * k] < 0 ∨ ops.toInt pts[2 * k + 1] < 0 ∨ ops.toInt pts[2 * k] ≥ env.image_GetWidth ∨
-        ops.toInt pts[2 * k + 1] ≥ env.image_GetHeight
+    by_cases hc : ops.toInt pts[2 * k] < 0 ∨ ops.toInt pts[2 * k + 1] < 0 ∨ ops.toInt pts[2 * k] ≥ env.BitMatrix_GetWidth ∨
+        ops.toInt pts[2 * k + 1] ≥ env.BitMatrix_GetHeight
     · have hb : ((((decide (ops.toInt pts[2 * k] < 0)) || (decide (ops.toInt pts[2 * k + 1] < 0))) ||
-          (decide (ops.toInt pts[2 * k] >= env.image_GetWidth))) || (decide (ops.toInt pts[2 * k + 1] >= env.image_GetHeight))) = true := by
+          (decide (ops.toInt pts[2 * k] >= env.BitMatrix_GetWidth))) || (decide (ops.toInt pts[2 * k + 1] >= env.BitMatrix_GetHeight))) = true := by
         simp only [Bool.or_eq_true, decide_eq_true_eq]; omega
       simp only [hb, hc, if_true]
     · have hb : ((((decide (ops.toInt pts[2 * k] < 0)) || (decide (ops.toInt pts[2 * k + 1] < 0))) ||
-          (decide (ops.toInt pts[2 * k] >= env.image_GetWidth))) || (decide (ops.toInt pts[2 * k + 1] >= env.image_GetHeight))) = false := by
+          (decide (ops.toInt pts[2 * k] >= env.BitMatrix_GetWidth))) || (decide (ops.toInt pts[2 * k + 1] >= env.BitMatrix_GetHeight))) = false := by
         simp only [Bool.or_eq_false_iff, decide_eq_false_iff_not]; omega
       simp only [hb, hc, Bool.false_eq_true, if_false]
       rw [show ((2 * k : Nat) : Int) + 2 = ((2 * (k + 1) : Nat) : Int) by omega]
@@ -245,8 +245,8 @@ when_kernel Gzx.Gen.K19b.sampleGridWT in
 /-- **SampleGridWithTransform, Go source to closed form** (general form): it suffices that the nudged slice of every row that passes
     the nudge test has the length of the row (`2·dimensionX`) -/
 theorem k_sampleGridWT_eq_rows (ops : NumOps F) (env : Gen.K19b.sampleGridWT_Env F S) (dimX dimY : Int)
-    (hN : ∀ y, (env.GridSampler_checkAndNudgePoints (env.transform_TransformPoints (centres ops dimX.toNat y))).1 = false →
-      (env.GridSampler_checkAndNudgePoints (env.transform_TransformPoints (centres ops dimX.toNat y))).2.length = 2 * dimX.toNat) :
+    (hN : ∀ y, (env.GridSampler_checkAndNudgePoints (env.PerspectiveTransform_TransformPoints (centres ops dimX.toNat y))).1 = false →
+      (env.GridSampler_checkAndNudgePoints (env.PerspectiveTransform_TransformPoints (centres ops dimX.toNat y))).2.length = 2 * dimX.toNat) :
     Gen.K19b.sampleGridWT ops env dimX dimY = .ok (sampleSpec ops env dimX dimY) := by
   unfold Gen.K19b.sampleGridWT sampleSpec
   by_cases hd : dimX ≤ 0 ∨ dimY ≤ 0
@@ -266,7 +266,7 @@ theorem k_sampleGridWT_eq_rows (ops : NumOps F) (env : Gen.K19b.sampleGridWT_Env
         (rowSpec ops env dimX.toNat y bits).1.length = 2 * dimX.toNat := by
       intro y bits b hb
       simp only [rowSpec] at hb ⊢
-      cases hn : (env.GridSampler_checkAndNudgePoints (env.transform_TransformPoints (centres ops dimX.toNat y))).1 with
+      cases hn : (env.GridSampler_checkAndNudgePoints (env.PerspectiveTransform_TransformPoints (centres ops dimX.toNat y))).1 with
       | true => rw [hn] at hb; simp at hb
       | false => exact hN y hn
     rw [show tripUp 0 dimY 1 = dimY.toNat by rw [tripUp_one]; omega]
@@ -283,25 +283,25 @@ theorem k_sampleGridWT_eq_rows (ops : NumOps F) (env : Gen.K19b.sampleGridWT_Env
             .next points) : Ctl (List F) (Option S))) 2 dimX.toNat 0 pts = .next (centres ops dimX.toNat y) := hf
       rw [hf']
       simp only [next_thenC, rowSpec]
-      cases hn : (env.GridSampler_checkAndNudgePoints (env.transform_TransformPoints (centres ops dimX.toNat y))).1 with
+      cases hn : (env.GridSampler_checkAndNudgePoints (env.PerspectiveTransform_TransformPoints (centres ops dimX.toNat y))).1 with
       | true => simp only [if_true]
       | false =>
         simp only [Bool.false_eq_true, if_false]
-        have hl2 : (env.GridSampler_checkAndNudgePoints (env.transform_TransformPoints (centres ops dimX.toNat y))).2.length =
+        have hl2 : (env.GridSampler_checkAndNudgePoints (env.PerspectiveTransform_TransformPoints (centres ops dimX.toNat y))).2.length =
             2 * dimX.toNat := hN y hn
         have hrd := read_loop ops env _ y dimX.toNat hl2 dimX.toNat 0 bits (by omega)
         have hrd' : loop (fun (x : Int) (st : S) =>
             ((let bits := st
-              tryC (idxA (env.GridSampler_checkAndNudgePoints (env.transform_TransformPoints (centres ops dimX.toNat y))).2 x) fun t2 =>
+              tryC (idxA (env.GridSampler_checkAndNudgePoints (env.PerspectiveTransform_TransformPoints (centres ops dimX.toNat y))).2 x) fun t2 =>
               let px : Int := ops.toInt t2
-              tryC (idxA (env.GridSampler_checkAndNudgePoints (env.transform_TransformPoints (centres ops dimX.toNat y))).2 (x + 1)) fun t3 =>
+              tryC (idxA (env.GridSampler_checkAndNudgePoints (env.PerspectiveTransform_TransformPoints (centres ops dimX.toNat y))).2 (x + 1)) fun t3 =>
               let py : Int := ops.toInt t3
-              if ((((decide (px < 0)) || (decide (py < 0))) || (decide (px >= env.image_GetWidth))) || (decide (py >= env.image_GetHeight))) then
+              if ((((decide (px < 0)) || (decide (py < 0))) || (decide (px >= env.BitMatrix_GetWidth))) || (decide (py >= env.BitMatrix_GetHeight))) then
                 .ret none
               else
               let bits :=
-                if (env.image_Get px py) then
-                  let bits := env.bits_Set bits (Int.tdiv x 2) y
+                if (env.BitMatrix_Get px py) then
+                  let bits := env.BitMatrix_Set bits (Int.tdiv x 2) y
                   bits
                 else
                   bits
@@ -316,7 +316,7 @@ when_kernel Gzx.Gen.K19b.sampleGridWT in
     slice length (the real ones write in place), and all dimensions, the regenerated function returns `sampleSpec` — in particular
     it never panics -/
 theorem k_sampleGridWT_eq (ops : NumOps F) (env : Gen.K19b.sampleGridWT_Env F S) (dimX dimY : Int)
-    (hT : ∀ l, (env.transform_TransformPoints l).length = l.length)
+    (hT : ∀ l, (env.PerspectiveTransform_TransformPoints l).length = l.length)
     (hN : ∀ l, (env.GridSampler_checkAndNudgePoints l).2.length = l.length) :
     Gen.K19b.sampleGridWT ops env dimX dimY = .ok (sampleSpec ops env dimX dimY) :=
   k_sampleGridWT_eq_rows ops env dimX dimY (fun y _ => by rw [hN, hT, centres_length])
@@ -325,12 +325,12 @@ theorem k_sampleGridWT_eq (ops : NumOps F) (env : Gen.K19b.sampleGridWT_Env F S)
 -- is the list of `Set` calls): cell (0,0) is set, cell (1,0) is not; and a dimension 0 is NotFound
 def demoEnv : Gen.K19b.sampleGridWT_Env Rat (List (Int × Int)) where
   NewBitMatrix := fun _ _ => []
-  transform_TransformPoints := fun l => l
+  PerspectiveTransform_TransformPoints := fun l => l
   GridSampler_checkAndNudgePoints := fun l => (false, l)
-  image_GetWidth := 2
-  image_GetHeight := 1
-  image_Get := fun x _ => x == 0
-  bits_Set := fun b x y => b ++ [(x, y)]
+  BitMatrix_GetWidth := 2
+  BitMatrix_GetHeight := 1
+  BitMatrix_Get := fun x _ => x == 0
+  BitMatrix_Set := fun b x y => b ++ [(x, y)]
 
 when_kernel Gzx.Gen.K19b.sampleGridWT in
 example : Gen.K19b.sampleGridWT ratOps demoEnv 2 1 = .ok (some [(0, 0)]) := by
